@@ -32,6 +32,9 @@ INT_NAMES = PREFIXES + [(C(b'a'), C(b'b'), C(b'x')), (C(b'a'), C(b'b'), C(b'c'),
                         (C(b'z'),), (C(b'e'), C(b'f')), (C(b'a'), rc.comp(32, b'b')), (C(b'a'), C(b'd'), rc.comp(1, bytes(32))),
                         (C(b'a'), C(b''))]
 INT_NAMES = [n for n in INT_NAMES if n]     # an Interest needs at least one component
+# prefixes with a zero-length component (documented: '' in a component list, '//' in a URI), used by the random histories
+EMPTY_COMP_PREFIXES = [(C(b'a'), C(b'')), (C(b'a'), C(b''), C(b's')), (C(b''),)]
+EMPTY_COMP_NAMES = [(C(b'a'), C(b''), C(b's'), C(b'x')), (C(b'a'), C(b's'), C(b'x')), (C(b'a'), C(b''), C(b'y')), (C(b''), C(b'q')), (C(b'a'), C(b's'))]
 
 
 def lpm(attached, name):
@@ -128,7 +131,9 @@ class Target:
 
     def attach(self, form, hid, opts=(False, False)):
         if self.kind == 'v2':
-            self.app.attach_handler(form, self.handler(hid))
+            async def accept(n, s_, c):
+                return types.ValidResult.PASS
+            self.app.attach_handler(form, self.handler(hid), accept)      # (parameterised Interests need an accepting validator)
         elif self.kind == 'v1':
             self.app.set_interest_filter(form, self.handler(hid, opts), need_raw_packet=opts[0], need_sig_ptrs=opts[1])
         else:
@@ -149,9 +154,16 @@ class Target:
         else:
             self.d.unregister(form)
 
-    async def interest(self, name, lifetime=None, nonce=3):
-        wire = bytes(make_interest(list(name), InterestParam(lifetime=lifetime, nonce=nonce)))
+    async def interest(self, name, lifetime=None, nonce=3, param_at=None):
+        if param_at is None:
+            wire = bytes(make_interest(list(name), InterestParam(lifetime=lifetime, nonce=nonce)))
+        else:
+            # a parameterised Interest whose digest component stands at position param_at of the name (not necessarily last)
+            comps = list(name)
+            comps.insert(min(param_at, len(comps)), rc.comp(2, bytes(32)))
+            wire = bytes(make_interest(comps, InterestParam(lifetime=lifetime, nonce=nonce), b'prm'))
         self.last_wire = wire
+        self.last_name = tuple(rc.strict_interest(wire)['name'])
         if self.kind == 'dispatcher':
             n, p, a, s = parse_interest(wire)
             return self.d.dispatch(n, p, a)
@@ -243,8 +255,13 @@ def run_history(ctx, rng, kind, ops, label):
                 name = tuple(op[1])
                 n0 = len(log)
                 nerr = len(S.sentinel.all())
+                param_at = rng.choice([None, None, None, 0, 1, 2, 9])
                 try:
-                    ret = await T.interest(name)
+                    ret = await T.interest(name, param_at=param_at)
+                    name = T.last_name          # (with the digest component where it stands)
+                    if param_at is not None:
+                        ctx.event('interest-parameterised-digest-at-%s' % ('end' if param_at >= len(op[1]) else 'middle'))
+                        w['digest_component_at'] = param_at
                 except Exception as e:   # noqa
                     res['viol'].append((f'interest-delivery-raises:{kind}:{type(e).__name__}@{raising_site(e)[0]}', f'delivering an Interest raised {e!r}', w))
                     continue
@@ -489,21 +506,23 @@ def run(ctx):
         ops = []
         for _ in range(rng.randint(4, 25)):
             k = rng.random()
+            pool_p = PREFIXES + (EMPTY_COMP_PREFIXES if i % 2 else [])
+            pool_n = INT_NAMES + (EMPTY_COMP_NAMES if i % 2 else [])
             if k < 0.35:
-                ops.append(('attach', rng.choice(PREFIXES)))
+                ops.append(('attach', rng.choice(pool_p)))
             elif k < 0.40 and kind == 'v2':
                 ops.append(('reconnect', ()))
             elif k < 0.44 and kind in ('v1', 'v2') and i % 2:
                 ops.append(('register-bare', rng.choice([p for p in PREFIXES if p])))
             elif k < 0.55:
-                ops.append(('detach', rng.choice(PREFIXES)))
+                ops.append(('detach', rng.choice(pool_p)))
             else:
-                ops.append(('interest', rng.choice(INT_NAMES)))
+                ops.append(('interest', rng.choice(pool_n)))
         run_history(ctx, rng, kind, ops, 'random')
     check_reply(ctx, rng)
     for k in ('attach', 'detach', 'duplicate-attach', 'interest-hit', 'interest-miss', 'reply-sent', 'reply-late', 'attach-with-delivery-options',
               'reconnect-with-handlers-attached', 'register-without-handler-on-free-prefix', 'duplicate-route-declaration',
-              'reply-from-blocking-handler'):
+              'reply-from-blocking-handler', 'interest-parameterised-digest-at-middle'):
         ctx.need_event(k)
     ctx.assumptions = ['detaching a never-attached prefix and handler exceptions are outside the statement',
                        'the reply clause is judged on the current front-end (the legacy one has no reply callback)']
